@@ -476,9 +476,22 @@ DynArray* dyn_array_clone(DynArray* arr) {
         return NULL;
     }
     
+    /* Struct arrays learn their element size on the first push: take it over
+     * from the source and allocate the store dyn_array_new() delayed */
+    if (arr->elem_type == ELEM_STRUCT && arr->elem_size > 0) {
+        new_arr->elem_size = arr->elem_size;
+        new_arr->data = malloc(new_arr->capacity * new_arr->elem_size);
+        if (new_arr->data == NULL) {
+            gc_release(new_arr);
+            return NULL;
+        }
+    }
+
     /* Reserve capacity and copy data */
     dyn_array_reserve(new_arr, arr->length);
-    memcpy(new_arr->data, arr->data, arr->length * arr->elem_size);
+    if (arr->length > 0) {
+        memcpy(new_arr->data, arr->data, arr->length * arr->elem_size);
+    }
     new_arr->length = arr->length;
     
     return new_arr;
